@@ -77,7 +77,7 @@ theorem select_errorCommon_iff (i : BindIn) :
 /-- "carries content and unmarshals", as the code decides it: no error recorded so far, the body
 is (or can be) read, and the unmarshaller chosen from the Content-Type accepts it. -/
 def Ready (i : BindIn) (h : Http) : Prop :=
-  i.respErr = none ∧ (i.bodyCached = true ∨ h.readOK = true) ∧ codecOK h = true
+  i.respErr = none ∧ (i.bodyCached = true ∨ h.bodyOK = true) ∧ codecOK h = true
 
 instance (i : BindIn) (h : Http) : Decidable (Ready i h) := by unfold Ready; infer_instance
 
@@ -92,7 +92,7 @@ theorem parse_slots (i : BindIn) :
   · simp [parseBody]
   · rcases hsel : selectTarget ⟨some h, sT, eT, cE, respErr, cached, slots⟩ with _ | t
     · simp [parseBody, hsel]
-    · rcases respErr with _ | e <;> cases cached <;> cases hr : h.readOK <;> cases hc : codecOK h <;>
+    · rcases respErr with _ | e <;> cases cached <;> cases hr : h.bodyOK <;> cases hc : codecOK h <;>
         simp [parseBody, hsel, Ready, hr, hc]
 
 /-- The error `parseResponseBody` returns, in closed form: none when no target is selected;
@@ -104,7 +104,7 @@ theorem parse_err (i : BindIn) :
         match i.respErr with
         | some e => some e
         | none =>
-          if i.bodyCached = false ∧ h.readOK = false then some .read
+          if i.bodyCached = false ∧ h.bodyOK = false then h.acqErr
           else if codecOK h = true then none else some .unmarshal
       | _, _ => none := by
   obtain ⟨http, sT, eT, cE, respErr, cached, slots⟩ := i
@@ -112,7 +112,7 @@ theorem parse_err (i : BindIn) :
   · simp [parseBody]
   · rcases hsel : selectTarget ⟨some h, sT, eT, cE, respErr, cached, slots⟩ with _ | t
     · simp [parseBody, hsel]
-    · rcases respErr with _ | e <;> cases cached <;> cases hr : h.readOK <;> cases hc : codecOK h <;>
+    · rcases respErr with _ | e <;> cases cached <;> cases hr : h.bodyOK <;> cases hc : codecOK h <;>
         simp [parseBody, hsel, hr, hc]
 
 /-- **success_bound_iff** — starting from empty slots, the success result is populated exactly
@@ -250,20 +250,40 @@ recorded before and the body reads but does not unmarshal, `parseResponseBody` r
 unmarshalling error and leaves the slots untouched. -/
 theorem unmarshal_failure_surfaces (i : BindIn) (h : Http) (t : Target)
     (hh : i.http = some h) (hsel : selectTarget i = some t) (he : i.respErr = none)
-    (hread : i.bodyCached = true ∨ h.readOK = true) (hbad : codecOK h = false) :
+    (hread : i.bodyCached = true ∨ h.bodyOK = true) (hbad : codecOK h = false) :
     (parseBody i).err = some .unmarshal ∧ (parseBody i).slots = i.slots := by
   constructor
   · rw [parse_err]; simp only [hh, hsel, he, hbad]
-    have : ¬ (i.bodyCached = false ∧ h.readOK = false) := by
+    have : ¬ (i.bodyCached = false ∧ h.bodyOK = false) := by
       rintro ⟨a, b⟩; rcases hread with c | c <;> simp_all
     simp [this]
   · rw [parse_slots]; simp [hh, hsel, Ready, hbad]
 
+/-- What `ToBytes` can fail with: the body read, or the client's response-body transformer. -/
+theorem acqErr_cases (h : Http) (e : Err) (he : h.acqErr = some e) :
+    (h.readOK = false ∧ e = .read) ∨ (h.readOK = true ∧ ∃ k, h.xf = .fail e k) := by
+  unfold Http.acqErr at he
+  cases hr : h.readOK
+  · left; simp [hr] at he; exact ⟨rfl, he.symm⟩
+  · right
+    simp only [hr, Bool.not_true, Bool.false_eq_true, if_false] at he
+    split at he
+    · cases he; exact ⟨rfl, _, by assumption⟩
+    · cases he
+
+theorem bodyOK_false (h : Http) (hb : h.bodyOK = false) : ∃ e, h.acqErr = some e := by
+  unfold Http.bodyOK at hb
+  cases ha : h.acqErr with
+  | none => simp [ha] at hb
+  | some e => exact ⟨e, rfl⟩
+
 /-- Conversely `parseResponseBody` returns an error ONLY when a target was selected; the error
-is then the recorded one, a read failure or an unmarshalling failure — and nothing is bound. -/
+is then the recorded one, a failure to read or transform the body (recorded by `ToBytes`), or
+an unmarshalling failure — and nothing is bound. -/
 theorem parse_err_cases (i : BindIn) (e : Err) (herr : (parseBody i).err = some e) :
-    (∃ h t, i.http = some h ∧ selectTarget i = some t) ∧
-    (i.respErr = some e ∨ (i.respErr = none ∧ (e = .read ∨ e = .unmarshal))) ∧
+    (∃ h t, i.http = some h ∧ selectTarget i = some t ∧
+      (i.respErr = some e ∨
+        (i.respErr = none ∧ ((i.bodyCached = false ∧ h.acqErr = some e) ∨ e = .unmarshal)))) ∧
     (parseBody i).slots = i.slots := by
   rw [parse_err] at herr
   rw [parse_slots]
@@ -272,23 +292,22 @@ theorem parse_err_cases (i : BindIn) (e : Err) (herr : (parseBody i).err = some 
   · rcases hsel : selectTarget i with _ | t
     · simp [hh, hsel] at herr
     · simp only [hh, hsel] at herr ⊢
-      refine ⟨⟨h, t, rfl, rfl⟩, ?_⟩
       rcases hre : i.respErr with _ | e'
       · simp only [hre] at herr
         have hnr : ¬ Ready i h := by
           intro ⟨_, h2, h3⟩
-          have : ¬ (i.bodyCached = false ∧ h.readOK = false) := by
+          have : ¬ (i.bodyCached = false ∧ h.bodyOK = false) := by
             rintro ⟨a, b⟩; rcases h2 with c | c <;> simp_all
           simp [this, h3] at herr
-        refine ⟨Or.inr ⟨rfl, ?_⟩, by simp [hnr]⟩
+        refine ⟨⟨h, t, rfl, rfl, Or.inr ⟨rfl, ?_⟩⟩, by simp [hnr]⟩
         split at herr
-        · left; cases herr; rfl
+        · left; rename_i hc; exact ⟨hc.1, herr⟩
         · split at herr
           · cases herr
           · right; cases herr; rfl
       · simp only [hre] at herr
         cases herr
-        exact ⟨Or.inl rfl, by simp [Ready, hre]⟩
+        exact ⟨⟨h, t, rfl, rfl, Or.inl rfl⟩, by simp [Ready, hre]⟩
 
 /-- The unmarshaller is XML exactly when the Content-Type mentions "xml" and not "json";
 everything else (including no Content-Type at all) goes to JSON. -/
